@@ -3,7 +3,7 @@ CONSTANTS
   Cons <- AsgPat
   Terms = {"semi"}
   MaxE = 1
-  MaxS = 1
+  MaxS = 2
   MaxX = 1
   MaxP = 2
   MaxL = 0
